@@ -89,6 +89,48 @@ func c13SibUse() string {
 	return fmt.Sprintf("size=%v enc=%v", sz, en)
 }
 
+// c13OuterUse encodes (size + bytes) a value of the valid outer type whose sibling field is populated.
+func c13OuterUse(gouter reflect.Type, form string) string {
+	sib := reflect.New(rtSib)
+	sib.Elem().Field(0).SetInt(42)
+	sib.Elem().Field(1).SetString("hello")
+	in := reflect.New(rtSibIn)
+	in.Elem().Field(0).SetInt(-3)
+	sib.Elem().Field(2).Set(in)
+	v := reflect.New(gouter)
+	f := v.Elem().Field(1)
+	switch form {
+	case "value":
+		f.Set(sib.Elem())
+	case "pointer":
+		f.Set(sib)
+	case "list-of-pointers":
+		f.Set(reflect.Append(reflect.MakeSlice(f.Type(), 0, 1), sib))
+	case "list-of-values":
+		f.Set(reflect.Append(reflect.MakeSlice(f.Type(), 0, 1), sib.Elem()))
+	case "map-value":
+		m := reflect.MakeMap(f.Type())
+		m.SetMapIndex(reflect.ValueOf(int32(1)), sib)
+		f.Set(m)
+	case "map-key":
+		m := reflect.MakeMap(f.Type())
+		m.SetMapIndex(sib, reflect.ValueOf(int32(1)))
+		f.Set(m)
+	}
+	sz := Size(v.Interface())
+	buf := make([]byte, 128)
+	en := Enc(buf, v.Interface())
+	out := fmt.Sprintf("size=%v enc=%v %x", sz, en, buf[:en.N])
+	if en.Err == nil && en.Panic == nil {
+		dst := reflect.New(gouter)
+		de := Dec(append([]byte{}, buf[:en.N]...), dst.Interface())
+		b2 := make([]byte, 128)
+		e2 := Enc(b2, dst.Interface())
+		out += fmt.Sprintf(" dec=%v reenc=%x", de, b2[:e2.N])
+	}
+	return out
+}
+
 // c13SibDefs picks the invalid definitions used in the sibling phase: one per distinct rejection site.
 func c13SibDefs(tier universe.Tier) []badDef {
 	all := badDefs()
@@ -137,6 +179,10 @@ func c13Siblings(c *explore.C, tier universe.Tier) {
 	cs := func(class, m string) *harness.Case {
 		return &harness.Case{Property: "C13", Class: class, Type: desc, GoType: outer.String(), Detail: m}
 	}
+	// a valid outer type holding the sibling the same way (it shares the field's type record with the invalid one)
+	gouter := reflect.StructOf([]reflect.StructField{sfield(0, rtI32, `frugal:"1,default,i32"`), c13SibField(1, 2, sform)})
+	hooks.Reset()
+	wantOuter := c13OuterUse(gouter, sform)
 	// what the sibling does in a process that never saw the invalid definition
 	hooks.Reset()
 	want := c13SibUse()
@@ -147,6 +193,9 @@ func c13Siblings(c *explore.C, tier universe.Tier) {
 	if usedBefore {
 		if got := c13SibUse(); got != want {
 			panic("harness error: sibling use differs after reset: " + got)
+		}
+		if got := c13OuterUse(gouter, sform); got != wantOuter {
+			panic("harness error: valid outer type behaves differently after reset: " + got)
 		}
 	}
 	for round := 0; round < 2; round++ {
@@ -160,11 +209,10 @@ func c13Siblings(c *explore.C, tier universe.Tier) {
 			return
 		}
 	}
-	// a valid outer type holding the sibling the same way, registered afterwards, works too
-	gfs := []reflect.StructField{sfield(0, rtI32, `frugal:"1,default,i32"`), c13SibField(1, 2, sform)}
-	gouter := reflect.StructOf(gfs)
-	if r := Enc(make([]byte, 96), reflect.New(gouter).Interface()); r.Err != nil || r.Panic != nil {
-		c.Fail(fmt.Sprintf("a valid type holding the sibling is rejected after the invalid one: %v [%s]", r, desc), cs("valid-rejected", r.String()))
+	// the valid outer type holding the sibling the same way - registered before the rejection or only now -
+	// works exactly as in a process that never saw the invalid definition, with the sibling field populated
+	if got := c13OuterUse(gouter, sform); got != wantOuter {
+		c.Fail(fmt.Sprintf("a valid type that shares a nested struct with a rejected definition is affected (registered before the rejection: %v): it gives\n   %s\nwant %s [%s]", usedBefore, got, wantOuter, desc), cs("valid-type-affected", got))
 		return
 	}
 	harness.Cur.Evals(10)
